@@ -50,16 +50,17 @@ type vhC11Iter struct {
 }
 
 func (l *vhC11List) Iterator() module.TransactionIterator { return &vhC11Iter{l: l} }
-func (it *vhC11Iter) Has() bool                            { return it.i < len(it.l.txs) }
-func (it *vhC11Iter) Next() error                          { it.i++; return nil }
+func (it *vhC11Iter) Has() bool                           { return it.i < len(it.l.txs) }
+func (it *vhC11Iter) Next() error                         { it.i++; return nil }
 func (it *vhC11Iter) Get() (module.Transaction, int, error) {
 	return it.l.txs[it.i], it.i, nil
 }
 
 type vhC11Block struct {
-	ts, th int64
-	txs    []*vhC11Tx
-	added  bool
+	ts, th    int64
+	txs       []*vhC11Tx
+	added     bool
+	committed bool // finalized: its locators went to the manager (cache / database)
 }
 
 func vhC11Manager() *manager {
@@ -126,8 +127,8 @@ func vhC11Chain(group module.TransactionGroup) {
 						continue
 					}
 					for _, otx := range ob.txs {
-						if tx.ts == ob.ts+ob.th {
-							// known finding (see known_findings.txt): tracker.Has skips a
+						if tx.ts == ob.ts+ob.th && !ob.committed {
+							// known finding (only while the ancestor is still tracked, not finalized) (see known_findings.txt): tracker.Has skips a
 							// block's own transactions when ts == bts+th although the
 							// window's upper bound is inclusive
 							sym.Assert(otx.id[0] != tx.id[0], "duplicate rejected, boundary case ts == bts+th of the ancestor holding it")
@@ -152,6 +153,9 @@ func vhC11Chain(group module.TransactionGroup) {
 			sym.Reach("commit")
 			if err := tr.Commit(); err != nil {
 				sym.Fail("commit failed")
+			}
+			for _, ob := range blocks {
+				ob.committed = true
 			}
 		}
 	}
